@@ -355,7 +355,7 @@ CHECKS["C10"]["runs"] = CHECKS["C10"]["runs"] + [TSRUN]
 CHECKS["C09"]["runs"] = CHECKS["C09"]["runs"] + [dict(TSRUN, name="client.ts.times", prop="C10")]  # the client half of C09 (assertions carry C10's label)
 CHECKS["C12"]["runs"] = CHECKS["C12"]["runs"] + [{"name": "conc.ts.backpressure", "files": CLITS, "fn": "VerifH_C12_tsBackpressure", "workers": 4, "reach": ["backpressure", "end"], "replay_timeout": 120}]
 CHECKS["C10"]["outside"] = ["MPEG-TS demuxing itself (mpegts.Reader is the boundary; TimeDecoder is interpreted)", "rendition playlists processed by a second stream processor", "byte-range addressing (C11)",
-                            "AbsoluteTime of non-leading MPEG-TS units that precede their segment's first leading unit in file order when PROGRAM-DATE-TIME is inconsistent with media time (they are anchored through the previous segment)"]
+                            "AbsoluteTime of non-leading MPEG-TS units that precede their segment's first leading unit in file order (the client anchors them through the previous segment's date-time, exact only for a gap-free wall clock)"]
 
 # ---- extra mux runs, per property ----
 def _mx(name, variant, tracks, kq, kt, reach, **extra):
